@@ -2,7 +2,7 @@
 from __future__ import annotations
 
 from .. import gen
-from ..common import q, uncps
+from ..common import rec as mkrec, cps, q, uncps
 from ..progprop import ProgramProperty, results, is_exc, init_step, Getter, have, MISSING
 
 
@@ -63,6 +63,27 @@ class C02(ProgramProperty):
                 tags.append("identifier-contains-delimiter")
         steps, how = gen.build_steps(rng, recs, delim, steps)
         _build_tag = "build=" + how
+        if rng.random() < 0.3:
+            # the converter lives on: a record whose synonyms include a name containing the delimiter (legal: such a
+            # name can simply never be the prefix of a CURIE) and clean names after it; every name of the record must
+            # be resolvable afterwards, and the earlier answers must still hold
+            names = sorted(["zq" + delim + "odd", "zr" + gen.word(rng, 1, 1, syms=["a", "b", "1"]), "zs"])
+            tail = [{"op": rng.choice(["add_prefix", "add_prefix", "add_record"]), "c": 0}]
+            if tail[0]["op"] == "add_prefix":
+                tail[0].update({"p": cps("zp"), "u": cps("http://late.example/"), "ps": [cps(x) for x in names], "us": []})
+            else:
+                tail[0]["record"] = mkrec("zp", "http://late.example/", names)
+            tail += [q(0, "records"), q(0, "delimiter")]
+            for x in ["zp"] + names:
+                tail += [q(0, "expand_pair", x, "1"), q(0, "expand_pair_all", x, "1"), q(0, "standardize_prefix", x)]
+                if delim not in x:
+                    tail += [q(0, "expand", x + delim + "1"), q(0, "is_curie", x + delim + "1")]
+            for pp, ii in pairs[:3]:
+                tail += [q(0, "expand", pp + delim + ii), q(0, "expand_pair", pp, ii)]
+            for st in tail:
+                st["_tail"] = True
+            steps = steps + tail
+            _build_tag += "+late-record"
         return {"steps": steps, "pairs": pairs, "delim": delim, "nontrivial": nontrivial, "tags": tags + [_build_tag]}
 
     def laws(self, case, impl):
